@@ -1622,6 +1622,7 @@ class DynamicBase(BaseSpaceImpl):
 
     def on_delete(self):
         self.del_all_itemspaces()
+        self.clear_subs_rootitems()     # ItemSpaces built from this space
         BaseSpaceImpl.on_delete(self)
 
 
